@@ -317,6 +317,10 @@ def run(R) -> None:
     R.rule('C04.R2', lambda: r2_rejection_effect_free(R))
     R.rule('C04.R3', lambda: r3_feasibility_guard(R))
     R.rule('C04.R4', lambda: r4_crossrefs(R))
+    # "solving never changes exogenous variables, parameters or errors" needs every series to own its array:
+    # two series sharing storage would be written together (C09.R1b owns the detail)
+    from rules import c09
+    R.rule('C04.R5', lambda: c09.r1b_fresh_arrays(R))
 
 
 def r4_crossrefs(R) -> None:
